@@ -368,3 +368,13 @@ Definition handed (a : act) : nat :=
   match a with APending | AResubmit | ARunStart | ARunBatch _ | ARunning _ _ | ARunCas | ADropStart => 1 | _ => 0 end.
 (* a occurs before b in l *)
 Definition before (l : list job) (a b : job) : Prop := exists l1 l2 l3, l = l1 ++ a :: l2 ++ b :: l3.
+(* the strand's own steps (everything but the submitters' loads, failed CASes and pushes) and a potential that every one of
+   them decreases *)
+Definition own_step (e : ev) : nat := match e with ELoad _ _ | ECasFail _ _ | EPush _ _ => 0 | _ => 1 end.
+Definition own_steps (tr : list ev) : nat := sumf own_step tr.
+Definition phase (a : act) : nat :=
+  match a with
+  | APending => 6 | ARunStart => 5 | ARunBatch t => 9 + 3 * length t | ARunning _ t => 11 + 3 * length t
+  | ARunCas => 8 | AResubmit => 7 | ADropStart => 5 | ADropBatch t => 1 + 2 * length t
+  end.
+Definition potential (s : st) : nat := 10 * length (inbox (jobs s)) + sumf phase (acts s) + 8 * must s.
